@@ -1032,7 +1032,16 @@ func ssOneReplacement(out *vOut, rng *vRand, idx int64) {
 	ssOneReplacementAs(out, rng, idx, "C07", "C07.stress-one-replacement")
 }
 
+// ssOneReplacementAs repeats the scenario a few times per case: whether two
+// completions overlap inside the window that matters depends on the schedule.
 func ssOneReplacementAs(out *vOut, rng *vRand, idx int64, prop string, rule string) {
+	for sub := 0; sub < 8 && len(out.Violations) == 0; sub++ {
+		ssOneReplacementOnce(out, rng, idx, int64(sub), prop, rule)
+	}
+}
+
+func ssOneReplacementOnce(out *vOut, rng *vRand, caseIdx int64, sub int64, prop string, rule string) {
+	idx := caseIdx*8 + sub
 	n := 1 + rng.Intn(3)
 	k := 2 + rng.Intn(10)
 	cp := &pb.ChannelPoolConfig{MinSize: uint32(n), MaxSize: uint32(n), MaxConcurrentStreamsLowWatermark: 1000, UnresponsiveCalls: uint32(1 + rng.Intn(2)), UnresponsiveDetectionMs: 1}
@@ -1106,7 +1115,7 @@ func ssOneReplacementAs(out *vOut, rng *vRand, idx int64, prop string, rule stri
 	out.nontrivial(vHashStrings([]string{"one-repl", fmt.Sprint(n, k, cp.UnresponsiveCalls)}))
 	out.sample(map[string]interface{}{"case": idx, "summary": log[0]})
 	if created != int64(n) || pending != n {
-		out.violation(vViol{Sig: rule, Rule: rule, Detail: fmt.Sprintf("%d channels each had %d calls time out concurrently after the window: %d replacement connections created, %d pending; exactly one per channel is allowed", n, k, created, pending), Case: idx, Log: log})
+		out.violation(vViol{Sig: rule, Rule: rule, Detail: fmt.Sprintf("%d channels each had %d calls time out concurrently after the window: %d replacement connections created, %d pending; exactly one per channel is allowed", n, k, created, pending), Case: caseIdx, Log: log})
 	}
 }
 
